@@ -117,10 +117,9 @@ func checkC06(p *Program, r *Reporter) {
 					continue
 				}
 				sites++
-				fb := factsOf(fn)
 				hasFlag := false
 				bad := ""
-				for _, c := range fb.transitiveCDeps(b, true) {
+				for _, c := range effectiveCDeps(b, true) {
 					if f, ok := loadedField(c.V); ok && f == "app.ResponseConfig.ContMultiPeriodFlag" && c.Pos {
 						hasFlag = true
 						continue
@@ -136,7 +135,7 @@ func checkC06(p *Program, r *Reporter) {
 					}
 				}
 				switch {
-				case fn != sp:
+				case !inCluster(sp, fn):
 					r.Violate("E5-CONTINUITY", shortFn(fn), "descriptor", p.pos(st.Pos()), "a period-continuity descriptor is created outside splitPeriod", nil)
 				case !hasFlag:
 					r.Violate("E5-CONTINUITY", shortFn(fn), "descriptor", p.pos(st.Pos()), "period continuity is signalled without testing the continuity flag", nil)
@@ -178,4 +177,13 @@ func checkC06(p *Program, r *Reporter) {
 				"the per-period startNumber cannot depend on the configured start number (snr_N)", nil)
 		}
 	}
+}
+
+func inCluster(anchor, fn *ssa.Function) bool {
+	for _, f := range cluster(anchor) {
+		if f == fn {
+			return true
+		}
+	}
+	return false
 }
